@@ -1,3 +1,146 @@
 // harnesses mounted as child module of agdb/src/storage/write_ahead_log.rs
 #[allow(unused_imports)]
 use super::*;
+use crate::verif_fs;
+use crate::verif_support::ok;
+
+// C01 obligation B: opening the log discards exactly a torn tail.
+//
+// Log = k complete records (k in {0, 1}, appended with the real `insert`)
+// followed by a strict prefix of one more record -- what a crash inside the
+// three `write_all` calls of `insert` (incl. a torn call) leaves behind.
+// The crash point (which of the three calls, how many bytes of it arrived) and
+// the value length are ENUMERATED concretely inside the harness (3 x 8 x 3
+// scenarios); positions and bytes stay symbolic. (With a symbolic crash point
+// CBMC 6.11 reported a spurious invalid `free` in the drop of the `DbError`
+// returned by `skip_record` -- the agdb crate contains no `unsafe` -- see
+// DESIGN.md §7.)
+fn c01_repair_one(k_complete: usize, vlen_first: usize, at: u32, torn: usize, l2: usize) {
+    verif_fs::reset(&[]);
+    let mut wal = ok(WriteAheadLog::new("db"));
+    let p1: u64 = kani::any();
+    let v1: [u8; 3] = kani::any();
+    if k_complete == 1 {
+        ok(wal.insert(p1, &v1[..vlen_first]));
+    }
+    let complete_len = verif_fs::log_len();
+    // the interrupted append: record r2, of which only a strict prefix arrives
+    let p2: u64 = kani::any();
+    let v2: [u8; 3] = kani::any();
+    verif_fs::arm_crash(at, torn);
+    ok(wal.insert(p2, &v2[..l2]));
+    std::mem::forget(wal);
+    assert!(verif_fs::snapped(), "harness: the crash point lies inside the append");
+    let partial = verif_fs::snap_log_len() - complete_len;
+    verif_fs::restore_snapshot();
+    if partial >= 16 + l2 {
+        // a crash before the (empty) third call of an empty-value record leaves
+        // a complete record: not a torn tail
+        return;
+    }
+    // reopen: repair must cut the log back to the complete records, no more, no less
+    let wal2 = ok(WriteAheadLog::new("db"));
+    assert!(
+        verif_fs::log_len() == complete_len,
+        "C01: repair did not truncate the log to exactly the complete records"
+    );
+    if k_complete == 1 {
+        assert!(verif_fs::log_u64(0) == p1, "C01: repair damaged the complete record (position)");
+        assert!(verif_fs::log_u64(8) == vlen_first as u64, "C01: repair damaged the complete record (length)");
+        assert!(vlen_first < 1 || verif_fs::log_byte(16) == v1[0], "C01: repair damaged the complete record (bytes)");
+        assert!(vlen_first < 2 || verif_fs::log_byte(17) == v1[1], "C01: repair damaged the complete record (bytes)");
+        assert!(vlen_first < 3 || verif_fs::log_byte(18) == v1[2], "C01: repair damaged the complete record (bytes)");
+    }
+    std::mem::forget(wal2);
+    kani::cover!(partial > 0 && partial < 8, "torn inside the position field");
+    kani::cover!(partial == 8, "position written, length missing");
+    kani::cover!(partial > 8 && partial < 16, "torn inside the length field");
+    kani::cover!(partial == 16 && l2 > 0, "header complete, value missing");
+    kani::cover!(partial > 16, "torn inside the value");
+}
+
+fn c01_repair_scenario(k_complete: usize, vlen_first: usize) {
+    // (call of the append that is interrupted, torn bytes of it, value length)
+    c01_repair_one(k_complete, vlen_first, 0, 0, 2);
+    c01_repair_one(k_complete, vlen_first, 0, 3, 2);
+    c01_repair_one(k_complete, vlen_first, 1, 0, 2);
+    c01_repair_one(k_complete, vlen_first, 1, 5, 0);
+    c01_repair_one(k_complete, vlen_first, 1, 7, 2);
+    c01_repair_one(k_complete, vlen_first, 2, 0, 2);
+    c01_repair_one(k_complete, vlen_first, 2, 1, 2);
+    c01_repair_one(k_complete, vlen_first, 2, 0, 0);
+    kani::cover!(true, "end of harness reachable");
+}
+
+//@ id=C01 tier=quick timeout=1500 bounds="empty log + strict prefix of one record: 8 enumerated crash points of the append (before each of its 3 file calls; torn 3/5/7 bytes inside the two header fields, 1 byte inside the value), interrupted record with 0 or 2 value bytes; positions and bytes symbolic" desc="WriteAheadLog::new (repair) truncates a log that holds only a torn record to length 0" kernel="WriteAheadLog::new,WriteAheadLog::repair,WriteAheadLog::skip_record,WriteAheadLog::insert" ignore="^__rust_dealloc\|"
+#[kani::proof]
+#[kani::stub(std::fmt::format, crate::verif_support::fmt_stub)]
+#[kani::stub(crate::DbError::new, crate::verif_support::dberror_new_stub)]
+#[kani::stub(<crate::DbError as std::convert::From<std::io::Error>>::from, crate::verif_support::ioerr_stub)]
+#[kani::stub(WriteAheadLog::wal_filename, crate::verif_support::wal_name_stub)]
+#[kani::stub(std::vec::from_elem, crate::verif_support::from_elem_stub8)]
+#[kani::unwind(3)]
+fn c01_repair_discards_torn_only_record() {
+    c01_repair_scenario(0, 0);
+}
+
+//@ id=C01 tier=quick timeout=1500 bounds="one complete record (2 value bytes) + strict prefix of a second: 8 enumerated crash points of the append (before each of its 3 file calls; torn 3/5/7 bytes inside the two header fields, 1 byte inside the value), interrupted record with 0 or 2 value bytes; positions and bytes symbolic" desc="repair truncates the torn tail and keeps the complete record bit-identical" kernel="WriteAheadLog::new,WriteAheadLog::repair,WriteAheadLog::skip_record,WriteAheadLog::insert" ignore="^__rust_dealloc\|"
+#[kani::proof]
+#[kani::stub(std::fmt::format, crate::verif_support::fmt_stub)]
+#[kani::stub(crate::DbError::new, crate::verif_support::dberror_new_stub)]
+#[kani::stub(<crate::DbError as std::convert::From<std::io::Error>>::from, crate::verif_support::ioerr_stub)]
+#[kani::stub(WriteAheadLog::wal_filename, crate::verif_support::wal_name_stub)]
+#[kani::stub(std::vec::from_elem, crate::verif_support::from_elem_stub8)]
+#[kani::unwind(3)]
+fn c01_repair_discards_torn_tail_after_complete_record() {
+    c01_repair_scenario(1, 2);
+}
+
+//@ id=C01 tier=quick timeout=1500 bounds="one complete truncation record (empty value) + strict prefix of a second: 8 enumerated crash points of the append (before each of its 3 file calls; torn 3/5/7 bytes inside the two header fields, 1 byte inside the value), interrupted record with 0 or 2 value bytes; positions and bytes symbolic" desc="repair keeps a complete empty-value record and cuts the torn tail behind it" kernel="WriteAheadLog::new,WriteAheadLog::repair,WriteAheadLog::skip_record,WriteAheadLog::insert" ignore="^__rust_dealloc\|"
+#[kani::proof]
+#[kani::stub(std::fmt::format, crate::verif_support::fmt_stub)]
+#[kani::stub(crate::DbError::new, crate::verif_support::dberror_new_stub)]
+#[kani::stub(<crate::DbError as std::convert::From<std::io::Error>>::from, crate::verif_support::ioerr_stub)]
+#[kani::stub(WriteAheadLog::wal_filename, crate::verif_support::wal_name_stub)]
+#[kani::stub(std::vec::from_elem, crate::verif_support::from_elem_stub8)]
+#[kani::unwind(3)]
+fn c01_repair_discards_torn_tail_after_truncation_record() {
+    c01_repair_scenario(1, 0);
+}
+
+//@ id=C01 tier=quick timeout=900 bounds="two records appended by the real insert (value lengths 2 and 0..=1), symbolic positions/bytes" desc="records() returns the appended records in append order with identical position and bytes (format round trip)" kernel="WriteAheadLog::insert,WriteAheadLog::records,WriteAheadLog::read_record,WriteAheadLog::read_exact"
+#[kani::proof]
+#[kani::stub(std::fmt::format, crate::verif_support::fmt_stub)]
+#[kani::stub(crate::DbError::new, crate::verif_support::dberror_new_stub)]
+#[kani::stub(<crate::DbError as std::convert::From<std::io::Error>>::from, crate::verif_support::ioerr_stub)]
+#[kani::stub(WriteAheadLog::wal_filename, crate::verif_support::wal_name_stub)]
+#[kani::stub(std::vec::from_elem, crate::verif_support::from_elem_stub8)]
+#[kani::unwind(4)]
+fn c01_records_round_trip() {
+    verif_fs::reset(&[]);
+    let mut wal = ok(WriteAheadLog::new("db"));
+    let p1: u64 = kani::any();
+    let p2: u64 = kani::any();
+    let v1: [u8; 2] = kani::any();
+    let v2: [u8; 1] = kani::any();
+    let second_empty: bool = kani::any();
+    ok(wal.insert(p1, &v1));
+    if second_empty {
+        ok(wal.insert(p2, &[]));
+    } else {
+        ok(wal.insert(p2, &v2));
+    }
+    let r = ok(wal.records());
+    assert!(r.len() == 2, "C01: records() did not return both records");
+    assert!(r[0].pos == p1 && r[1].pos == p2, "C01: records() positions/order wrong");
+    assert!(r[0].value.len() == 2 && r[0].value[0] == v1[0] && r[0].value[1] == v1[1], "C01: records() bytes wrong");
+    if second_empty {
+        assert!(r[1].value.is_empty(), "C01: records() empty value wrong");
+    } else {
+        assert!(r[1].value.len() == 1 && r[1].value[0] == v2[0], "C01: records() bytes wrong");
+    }
+    std::mem::forget(r);
+    std::mem::forget(wal);
+    kani::cover!(second_empty, "truncation record parsed");
+    kani::cover!(true, "end of harness reachable");
+}
